@@ -302,6 +302,14 @@ func classifyJSONRefusal(p *prover, cond ssa.Value, val bool) string {
 		if e, nn, ok := nilTest(cond); ok && isHeadersResult(e) && (nn == 1) == val {
 			return "no headers"
 		}
+		// a helper hands back the offending value: non-nil exactly where its assertion to bool failed
+		if e, nn, ok := nilTest(cond); ok && (nn == 0) == val {
+			if ex, isEx := e.(*ssa.Extract); isEx {
+				if call, isCall := ex.Tuple.(*ssa.Call); isCall && badValueOfFailedBoolAssert(call.Call.StaticCallee(), ex.Index) {
+					return "non-boolean skipable"
+				}
+			}
+		}
 		if (x.Op == token.EQL && val) || (x.Op == token.NEQ && !val) {
 			for _, side := range []ssa.Value{x.X, x.Y} {
 				if s, ok := constString(side); ok && s == "" {
@@ -832,4 +840,46 @@ func emittedBefore(fn *ssa.Function, b *ssa.BasicBlock, isEmit func(ssa.Instruct
 		}
 	}
 	return false, "the comma is chosen under a condition that does not say an object has been written (a row index also counts separator rows; a flag must be raised only behind an emission): a comma can precede the first object"
+}
+
+// badValueOfFailedBoolAssert: result idx of f is nil on every return except those reached after an assertion to
+// bool has failed, where it is the value that was asserted (or a freshly made non-nil interface value).
+func badValueOfFailedBoolAssert(f *ssa.Function, idx int) bool {
+	if f == nil || f.Blocks == nil || !inModule(f) {
+		return false
+	}
+	pr := gCtx.Idx().proverFor(f)
+	some := false
+	for _, rc := range returnCases(f) {
+		if idx >= len(rc.Vals) {
+			return false
+		}
+		conds := expandConds(dominatingConds(rc.Ret.Block()))
+		if rc.Via != nil && rc.Into != nil {
+			conds = append(conds, pr.edgeConds(rc.Via, rc.Into)...)
+		}
+		var failedOn ssa.Value
+		for _, cf := range conds {
+			if ex2, isEx := cf.Cond.(*ssa.Extract); isEx && ex2.Index == 1 && !cf.Val {
+				if ta, isTA := ex2.Tuple.(*ssa.TypeAssert); isTA && ta.CommaOk {
+					if b, isB := ta.AssertedType.Underlying().(*types.Basic); isB && b.Kind() == types.Bool {
+						failedOn = ta.X
+					}
+				}
+			}
+		}
+		v := rc.Vals[idx]
+		switch {
+		case failedOn == nil:
+			if !isNil(v) {
+				return false
+			}
+		default:
+			if _, isMI := v.(*ssa.MakeInterface); !isMI && v != failedOn {
+				return false
+			}
+			some = true
+		}
+	}
+	return some
 }
